@@ -72,6 +72,14 @@ def check(repo: Repo, rep: Report) -> None:
            "when building the inner observable fails the subscriber is not told")
     # ---- finally_action_ ------------------------------------------------------
     fsub = repo.fn(FA, "finally_action_.finally_action.subscribe")
+    n_act = {"subscribe": 0, "hook": 0}
+    for g in fsub.walk():
+        if g.is_func:
+            for s in sites(g):
+                if isinstance(s.node, ast.Call) and isinstance(s.node.func, ast.Name) and s.node.func.id == "action":
+                    n_act["subscribe" if g is fsub else "hook"] += 1
+    rep.ob("F1-finally-sites", fsub, f"finally_action_: the action is invoked in the dispose hook and on the subscribe-failure path ({n_act})", n_act["hook"] >= 1 and n_act["subscribe"] >= 1,
+           "finally_action no longer invokes its action in the returned dispose hook (or on the failing-subscribe path): the action runs zero times for that ending")
     for g in fsub.walk():
         if not g.is_func:
             continue
@@ -133,7 +141,8 @@ def check(repo: Repo, rep: Report) -> None:
                 rep.ob("D1-once-flag", g, f"{g.qual.split('.', 1)[-1]}: {short(s.node)}", bool(flag) and bool(sets),
                        "the finally-action is invoked without `not was_invoked` dominating it / without setting the flag on the "
                        "same path: it runs again on dispose after a terminal notification")
-    rep.require(n_inv >= 3, "invocations of finally_action in do_finally")
+    rep.ob("D1-once-flag", dsub, f"do_finally invokes its action on completion, on error and in the dispose hook ({n_inv} sites)", n_inv >= 3,
+           "do_finally no longer invokes its action on one of its three exits (completion, error, dispose): the action runs zero times for that ending")
     rep.ob("D1-once-flag", dsub, "was_invoked allocated per subscription", len(flags) == 1,
            "the once-flag is not allocated in subscribe: subscriptions share it")
     hook = [s for s in sites(dsub) if isinstance(s.node, ast.Call) and isinstance(s.node.func, ast.Attribute) and s.node.func.attr == "add"
